@@ -1,7 +1,7 @@
 (** * C09Proofs: slow-start ramp, per-sync creation bound and the spacing of syncs. *)
 From Coq Require Import List ZArith NArith Bool Lia.
 From EDS Require Import Model.Objects Model.Fitness Model.PodSpec Model.Backoff Model.Filter Model.Default
-     Model.Limits Model.Rolling Model.Canary Model.ErsReconcile Proofs.Lists Proofs.RollingProofs Proofs.SyncInv.
+     Model.Limits Model.Rolling Model.Canary Model.ErsReconcile Proofs.Lists Proofs.CondProofs Proofs.RollingProofs Proofs.SyncInv.
 Import ListNotations.
 Open Scope Z_scope.
 
@@ -60,33 +60,6 @@ Proof.
     unfold sync_gate in Hg. rewrite Hc in Hg. unfold tafter, tadd in Hg.
     assert (E : c_update c + freq >? sn_now sn = true) by (apply Z.gtb_lt; lia).
     rewrite E in Hg. discriminate.
-Qed.
-
-Lemma get_update_first : forall t f (cs : list cond) c,
-  get_cond cs t = Some c -> (forall x, c_type (f x) = c_type x) ->
-  get_cond (update_first (cond_has_type t) f cs) t = Some (f c).
-Proof.
-  intros t f cs; induction cs as [|x r IH]; intros c H Hty; [discriminate|].
-  unfold get_cond in *. simpl in *. destruct (cond_has_type t x) eqn:E.
-  - inversion H; subst. simpl. unfold cond_has_type in *. rewrite Hty, E. reflexivity.
-  - simpl. rewrite E. apply IH; assumption.
-Qed.
-
-Lemma get_cond_app_none : forall cs t c, get_cond cs t = None -> c_type c = t -> get_cond (cs ++ [c]) t = Some c.
-Proof.
-  intros cs t c; unfold get_cond; induction cs as [|x r IH]; simpl; intros H Ht.
-  - unfold cond_has_type. rewrite Ht, N.eqb_refl. reflexivity.
-  - destruct (cond_has_type t x); [discriminate|]. apply IH; assumption.
-Qed.
-
-(** a condition written with "write even if false" and "refresh lastUpdateTime" is present afterwards
-    and carries the instant of the write *)
-Lemma update_cond_stamps : forall cs now t st r m,
-  exists c, get_cond (update_cond cs now t st r m true true) t = Some c /\ c_update c = now /\ c_status c = st.
-Proof.
-  intros cs now t st r m. unfold update_cond. destruct (get_cond cs t) as [c0|] eqn:E.
-  - eexists. split; [apply get_update_first; [exact E|reflexivity]|]. cbn. rewrite orb_true_r. split; reflexivity.
-  - rewrite orb_true_r. eexists. split; [apply get_cond_app_none; [exact E|reflexivity]|]. split; reflexivity.
 Qed.
 
 Lemma full_sync_stamps : forall sn cx so pl, finish_sync sn cx so = Ok pl ->
